@@ -118,7 +118,7 @@ def run(ctx):
                       label="RpcRead repaired (<=4 blocks)")
 
     # 2. binding: behaviours from TLC -simulate, replayed on the real stack
-    nruns = 10 if thorough else 2
+    nruns = 8 if thorough else 2
     per_run = 260 if thorough else 80
     behaviours = []
     for i in range(nruns):
